@@ -254,7 +254,14 @@ fn tail(t: &mut Tape, obs: &mut Obs) -> R {
             v
         }
         1 => vec![t.u8()],
-        _ => match t.below(3) {
+        _ => match t.below(5) {
+            3 | 4 => {
+                // a completely framed handshake message whose body is structurally invalid (the rejection rules of C04)
+                match super::c04::gen_invalid(t) {
+                    Some((_, m)) if m.len() < 4000 => m,
+                    _ => vec![0xfe, 0, 0, 0],
+                }
+            }
             0 => {
                 let n = 1 + t.below(3);
                 t.bytes(n)
